@@ -59,7 +59,7 @@ struct CaseSpec
     int api = 0;           // 0 iterator-of-Packet, 1 single packet, 2 iterator-of-shared_ptr
     int pre = 0;           // earlier encode call on the SAME encoder: 0 none; same context, other version: 1 [small data], 2 [small status], 3 [segmenting data];
                            // same version, [small data]: 4 larger max, 5 smaller max, 6 same context, 7 minimum above this call's maximum;
-                           // same context, call aborted by the packet source: 8 after [small data], 9 after [segmenting data, small data]
+                           // same context, call aborted by the packet source: 8 after [small data], 9 after [segmenting data, small data]; 10 same context, empty batch
     std::vector<PSpec> b;
 };
 
@@ -529,7 +529,14 @@ static void judge(W& w, const std::string& prop, const CaseSpec& c)
     Encoder e;
     e.setDeviceId(c.dev);
     e.setStreamId(c.str);
-    if (c.pre >= 8)
+    if (c.pre == 10)
+    {
+        // an earlier call with an empty batch and the same context
+        std::vector<Packet> none;
+        e.encode(none.begin(), none.end(), DataContext{c.mn, c.mx});
+        w.add(mc::C_TRANS, 1);
+    }
+    else if (c.pre >= 8)
     {
         // an earlier call with the same context that was ABORTED by an exception from the caller's packet source, after one small
         // packet (kind 8) or after a segmented and a small packet (kind 9) had been put into frames: nothing of it may show up later
@@ -759,7 +766,7 @@ static void runTask(W& w, const std::string& prop, const Domain& d, const Task& 
             exec();
             if (t.part == 'A' && (t.n <= 2 || d.thorough) && t.n <= 3)
             {
-                for (c.pre = 1; c.pre <= 9; ++c.pre)
+                for (c.pre = 1; c.pre <= 10; ++c.pre)
                     exec();
                 c.pre = 0;
             }
@@ -970,6 +977,8 @@ static CaseSpec encodeArg(int k)
         case 0x20: c.mn = 0; c.mx = 25; c.b = {gen(1, 65530, 0)}; break;
         case 0x21: c.mn = 0; c.mx = 25; c.b = {gen(1, 65533, 0)}; break;
         case 0x22: c.mn = 0; c.mx = 25; c.b = {gen(1, 32765, 0)}; break;
+        case 0x30: c.mn = 0; c.mx = 100; c.b = {}; break;   // the empty batch (returns no frames; not in the tree alphabet: dedicated histories of C10)
+        case 0x31: c.mn = 64; c.mx = 64; c.b = {}; break;  // the empty batch with a minimum size
         case 13: c.mn = 0; c.mx = 100; c.b = {gen(0, 5, 0), gen(0, 6, 1)}; break;   // message type 0 ("undefined"): no type change opens the first frame
         case 12: c.mn = 0; c.mx = 1500; c.b = {gen(1, 16, 0), gen(3, 0, 1), gen(1, 16, 2)}; break;   // a zero-length payload between two type changes (emits no message)
         case 10: c.mn = 0; c.mx = 1500; c.ver = 2; c.b = {gen(1, 6, 0)}; break;       // E0 with another version
@@ -1470,6 +1479,28 @@ int main(int argc, char** argv)
                 for (int fin = 0; fin < 14; ++fin)
                 {
                     auto desc = [&] { return fmt("h=%s;f=%d", kAborted[o], fin); };
+                    if (!w.begin_case(desc))
+                        continue;
+                    HistState n = s;
+                    compareC10(w, n, fin);
+                    w.add(mc::C_TRANS, 2);
+                    w.add(mc::C_TRACES, 1);
+                }
+                w.add(mc::C_STATES, 1);
+            });
+        }
+        // an earlier call with an EMPTY batch (the one call that returns without having opened a frame) leaves nothing behind either
+        {
+            static const char* kEmpty[] = {"E30", "E31", "E30,E30", "E1,E30", "E30,E1", "E2,E30", "D1,E30", "E30,S7", "E30,R", "E5,E31,E0", "E30,X5", "X5,E30", "G,E30,G"};
+            run.round("histories with an encode call on an empty batch x all finals", sizeof(kEmpty) / sizeof(kEmpty[0]), [&](W& w, uint64_t o) {
+                HistState s;
+                W silent;
+                silent.single = true;
+                for (auto& op : parseHist(kEmpty[o]))
+                    applyOp(silent, s, op, false);
+                for (int fin = 0; fin < 14; ++fin)
+                {
+                    auto desc = [&] { return fmt("h=%s;f=%d", kEmpty[o], fin); };
                     if (!w.begin_case(desc))
                         continue;
                     HistState n = s;
